@@ -45,6 +45,17 @@ func replay(c *vlib.Ctx) {
 	}
 	c.Rule("replay of one saved case")
 	cs := f.Case
+	if cs.Extreme != nil && cs.Config == nil && (cs.Extreme.Fam == "wrap" || cs.Extreme.Fam == "lifecycle") {
+		// scenarios of their own: rebuilt from the catalogue entry alone
+		st := newLedgerStats()
+		if cs.Extreme.Fam == "wrap" {
+			wrapOne(c, st, newGuard(), *cs.Extreme)
+		} else if size, ok := sizeVal(cs.Extreme.X); ok {
+			lifecycleOne(c, st, newGuard(), cs.Extreme.Ver, size, []ext{*cs.Extreme})
+		}
+		c.Count(1, 1)
+		c.Finish()
+	}
 	if cs.Extreme != nil && cs.Config != nil {
 		replayLedger(c, f.Key, *cs.Extreme, cs.Sealed, *cs.Config, cs.Behaviour)
 		c.Count(1, 1)
